@@ -61,7 +61,8 @@ inductive Kind where
   | file | dir | symlink | other
 deriving DecidableEq, Repr
 
-/-- how a launched process behaves towards the runtime -/
+/-- how a launched process behaves towards the runtime (the last two act only at an `idle`
+    step of a plan, see `runPlan`; without one they are indistinguishable from `ok`) -/
 inductive Behaviour where
   | ok            -- registers, is configured, synchronises, answers every request
   | exitsAtOnce   -- exits before registering
@@ -69,6 +70,8 @@ inductive Behaviour where
   | configFails   -- answers Configure with an error
   | syncFails     -- answers Synchronize with an error
   | diesLater     -- as `ok`, then dies after the first request
+  | closesWhenIdle -- as `ok`, then closes its end of the connection while the runtime is idle, and keeps running
+  | exitsWhenIdle  -- as `ok`, then exits while the runtime is idle
 deriving DecidableEq, Repr
 
 /-- what happens when NRI tries to run the file: the exec fails (not an executable format,
@@ -292,5 +295,63 @@ def eventsOf (s : Started) (reqs : Nat) : List Ev :=
       (if s.found.exec = .runs .diesLater then (if reqs = 0 then [] else [Ev.create 1])
        else (List.range reqs).map fun i => Ev.create (i + 1))
      else [])
+
+/-! ## After start-up: requests, idle periods, Stop
+
+`r.plugins` with the `closed` flag of each plugin, and the plugins on which `p.stop()` (kill +
+wait) has been called. A plugin whose connection closes is only *flagged*; it is removed and
+stopped by `removeClosedPlugins`, which runs at the end of every relayed request — not while
+the runtime is idle. `stopPlugins` stops whatever is still in the list, flagged or not. -/
+
+inductive Step where
+  | request   -- one CreateContainer relayed to the plugins
+  | idle      -- the runtime is idle long enough for plugins that close / exit on their own to do so
+deriving DecidableEq, Repr
+
+structure RunState where
+  /-- `r.plugins`: plugin and its `closed` flag -/
+  plugins : List (Found × Bool)
+  /-- plugins on which `p.stop()` has been called -/
+  stopped : List Found
+  /-- (file name, request number) for every request a plugin was handed -/
+  log : List (Str × Nat)
+  reqNo : Nat
+deriving Repr
+
+def initRun (active : List Found) : RunState :=
+  { plugins := active.map fun f => (f, false), stopped := [], log := [], reqNo := 0 }
+
+/-- leaves (closes or dies) when the runtime is idle -/
+def leavesWhenIdle (f : Found) : Bool :=
+  f.exec = .runs .closesWhenIdle || f.exec = .runs .exitsWhenIdle
+
+/-- one relayed request: every plugin not flagged closed is handed it; one that dies after
+    its first request gets flagged; then the deferred `removeClosedPlugins` removes and stops
+    every flagged plugin -/
+def stepRequest (st : RunState) : RunState :=
+  let n := st.reqNo + 1
+  let handed := (st.plugins.filter fun p => !p.2).map fun p => (p.1.fileName, n)
+  let pl := st.plugins.map fun p => (p.1, p.2 || p.1.exec = .runs .diesLater)
+  { plugins := pl.filter (fun p => !p.2),
+    stopped := st.stopped ++ (pl.filter (fun p => p.2)).map (·.1),
+    log := st.log ++ handed, reqNo := n }
+
+/-- an idle period: plugins that close or exit on their own get flagged; nothing else happens -/
+def stepIdle (st : RunState) : RunState :=
+  { st with plugins := st.plugins.map fun p => (p.1, p.2 || leavesWhenIdle p.1) }
+
+def step (st : RunState) : Step → RunState
+  | .request => stepRequest st
+  | .idle => stepIdle st
+
+def runPlan (st : RunState) (plan : List Step) : RunState := plan.foldl step st
+
+/-- `stopPlugins`: `p.stop()` on every plugin still in the list — whatever its `closed` flag -/
+def stopAll (st : RunState) : RunState :=
+  { st with plugins := [], stopped := st.stopped ++ st.plugins.map (·.1) }
+
+/-- the seeded breakage seeded/C18-s1: `if p.isClosed() { continue }` in `stopPlugins` -/
+def stopAllSkippingClosed (st : RunState) : RunState :=
+  { st with plugins := [], stopped := st.stopped ++ (st.plugins.filter fun p => !p.2).map (·.1) }
 
 end Nri.Launch
